@@ -435,6 +435,20 @@ impl<T> LiquidationFeeParams<T> {
             fee_amount_for_receiver,
         })
     }
+
+    /// Public entry to the crate-private [`fee`](Self::fee), used only by the solver-based
+    /// checks in `/verif` (`--cfg gmsol_verif`).
+    #[cfg(gmsol_verif)]
+    pub fn verif_fee<const DECIMALS: u8>(
+        &self,
+        size_delta_usd: &T,
+        collateral_token_price: &Price<T>,
+    ) -> crate::Result<LiquidationFees<T>>
+    where
+        T: FixedPointOps<DECIMALS>,
+    {
+        self.fee(size_delta_usd, collateral_token_price)
+    }
 }
 
 /// Fees.
